@@ -1,7 +1,6 @@
 package props
 
 import (
-	"time"
 	"bytes"
 	"fmt"
 	"io"
@@ -10,6 +9,7 @@ import (
 	"sort"
 	"strings"
 	"sync"
+	"time"
 
 	rn "github.com/Trisia/randomness"
 	"github.com/Trisia/randomness/detect"
@@ -64,6 +64,8 @@ func (sp sampleSpec) bytes(n int) []byte {
 		return gen.Pack(gen.Seq{Family: "biased", N: n * 8, Seed: sp.Seed, F: sp.P}.Expand())
 	case "sticky": // markov chain with stay probability P: too few runs (runs-test Q saturates at exactly 1.0)
 		return gen.Pack(gen.Seq{Family: "markov", N: n * 8, Seed: sp.Seed, F: sp.P}.Expand())
+	case "balanced": // exactly as many ones as zeros: the monobit Q-value is exactly 0.5, the lower edge of the interval [0.5, 0.6)
+		return gen.Pack(gen.Seq{Family: "balanced", N: n * 8, Seed: sp.Seed}.Expand())
 	case "const":
 		out := make([]byte, n)
 		for i := range out {
@@ -441,8 +443,14 @@ func drawStream(t *rapid.T, wname string, targets []string) streamCase {
 		// a sample whose Q-value for item j saturates at exactly 1.0 (6-sigma excess of zeros for the monobit test, far too few
 		// runs for the runs test) belongs to the top interval [0.9, 1]: place one where the histogram wants a bin-9 sample
 		extreme := (j == 0 || j == 4) && rapid.Bool().Draw(t, "saturated_q")
+		// Q-values exactly on an interval edge: an exactly balanced sample has monobit Q = 0.5, which belongs to [0.5, 0.6)
+		onEdge := j == 0 && rapid.Bool().Draw(t, "q_on_edge")
 		for k, cnt := range h {
 			for i := 0; i < cnt; i++ {
+				if onEdge && bins[k] == 5 {
+					specs = append(specs, sampleSpec{Kind: "balanced", Seed: rapid.Uint64().Draw(t, "bseed")})
+					continue
+				}
 				if extreme && bins[k] == 9 && i == 0 && failBudget > 0 {
 					sp := sampleSpec{Kind: "biased", Seed: rapid.Uint64().Draw(t, "xseed"), P: 0.46}
 					if j == 4 {
